@@ -393,6 +393,7 @@ Definition mon_event (e : event) (m : mon) : mon :=
   end.
 
 Definition p_step (cfg : config) (t0 : Z) (m : mon) (pre : dump) (e : event) (o : list obs) (post : dump) : mon * string :=
+  let m0 := m in
   let m := mon_event e m in
   (* learners: a Select hands out the scripted learner *)
   let m := match e with
@@ -415,9 +416,39 @@ Definition p_step (cfg : config) (t0 : Z) (m : mon) (pre : dump) (e : event) (o 
                     end
                   | _ => ""
                   end) o) in
+  (* C06: timeouts are measured from the moment the party was last heard of *)
+  let syncs_before := m_syncs (mon_event e m0) in
+  let e_arm := first_nonempty (map (fun x =>
+                 match x with
+                 | OSync c _ _ =>
+                   match find (fun '(c', _) => Nat.eqb c c') syncs_before with
+                   | Some (_, w) =>
+                     match find_dworker post (w_sk w) (wid w) with
+                     | Some k => if optz_eqb (dw_cleanup k) (Some (d_now post + cf_worker_timeout cfg)) then ""
+                                 else "C06:worker-timeout-not-measured-from-last-synchronize"
+                     | None => "C06:synchronized-worker-not-registered"
+                     end
+                   | None => ""
+                   end
+                 | ORet c _ =>
+                   match find (fun s => Nat.eqb (sm_call s) c) (m_streams m) with
+                   | Some _ =>
+                     first_nonempty (map (fun o =>
+                       if Nat.eqb (do_waiters o) 0 && negb (do_mayexist o)
+                          && match find_dop pre (do_name o) with
+                             | Some o0 => negb (Nat.eqb (do_waiters o0) 0)
+                             | None => false
+                             end
+                       then (if optz_eqb (do_cleanup o) (Some (d_now post + cf_nowaiters cfg)) then ""
+                             else "C06:no-waiter-timeout-not-measured-from-last-waiter")
+                       else "") (d_ops post))
+                   | None => ""
+                   end
+                 | _ => ""
+                 end) o) in
   let e_exec := match e with
                 | EStartExecute c a _ => first_nonempty [c07_exec o; c03_exec pre post a; c05_exec cfg t0 pre post c a o]
                 | _ => ""
                 end in
   (m, first_nonempty [c01_dump post; e_sync; e_stream; c03_dump post; c04_dump post; e_exec; c05_assign pre post;
-                      c06_dump m post; c06_final m post; e_learn; c07_background post; c07_learners_match m post]).
+                      c06_dump m post; c06_final m post; e_arm; e_learn; c07_background post; c07_learners_match m post]).
